@@ -13,8 +13,13 @@
 (* accepted in total (the replay uses sinks that take everything, one byte,   *)
 (* three bytes, or 7 / 1 / 64 bytes per call, one call interrupted).  MaxLen   *)
 (* bounds the enumeration only: the contract has no length limit, and the     *)
-(* replay adds records with fields of 255 .. 70 001 characters.  Nothing dynamic is model-checked here: TLC enumerates the record *)
-(* space and supplies the expected abstract line for the conformance step.    *)
+(* replay adds records with fields of 255 .. 70 001 characters.  The line is  *)
+(* a function of the record, the thread and its context map alone: what other *)
+(* encoders rendered on the same thread before (a pattern with the thread's   *)
+(* name in front of the JSON appender) plays no part - the replay runs such   *)
+(* an encoder first in two of three cases.  Nothing dynamic is model-checked  *)
+(* here: TLC enumerates the record space and supplies the expected abstract   *)
+(* line for the conformance step.                                             *)
 (***************************************************************************)
 EXTENDS Integers, Sequences, FiniteSets, TLC
 CONSTANTS Classes, MaxLen, Budget
